@@ -70,18 +70,18 @@ var intTypes = map[string][2]reflect.Type{
 var intKinds = []string{"int", "int8", "int16", "int32", "int64", "uint", "uint8", "uint16", "uint32", "uint64"}
 
 // constructors
-func tvNil() *TV                 { return &TV{T: "nil"} }
-func tvBool(b bool) *TV          { return &TV{T: "bool", V: b} }
-func tvNBool(b bool) *TV         { return &TV{T: "bool", N: 1, V: b} }
-func tvStr(s string) *TV         { return &TV{T: "str", V: hx(s)} }
-func tvNStr(s string) *TV        { return &TV{T: "str", N: 1, V: hx(s)} }
+func tvNil() *TV                   { return &TV{T: "nil"} }
+func tvBool(b bool) *TV            { return &TV{T: "bool", V: b} }
+func tvNBool(b bool) *TV           { return &TV{T: "bool", N: 1, V: b} }
+func tvStr(s string) *TV           { return &TV{T: "str", V: hx(s)} }
+func tvNStr(s string) *TV          { return &TV{T: "str", N: 1, V: hx(s)} }
 func tvInt(k string, v string) *TV { return &TV{T: "int", K: k, V: v} }
-func tvF64(f float64) *TV        { return &TV{T: "f64", V: fmt.Sprintf("%016x", math.Float64bits(f))} }
+func tvF64(f float64) *TV          { return &TV{T: "f64", V: fmt.Sprintf("%016x", math.Float64bits(f))} }
 func tvDec(d decimal.Decimal) *TV {
 	return &TV{T: "dec", C: d.Coefficient().String(), E: strconv.Itoa(int(d.Exponent()))}
 }
-func tvPtr(inner *TV) *TV        { return &TV{T: "ptr", V: inner} }
-func tvNilPtr(inner *TV) *TV     { return &TV{T: "ptr", Nil: 1, V: inner} }
+func tvPtr(inner *TV) *TV    { return &TV{T: "ptr", V: inner} }
+func tvNilPtr(inner *TV) *TV { return &TV{T: "ptr", Nil: 1, V: inner} }
 func tvSlice(ei int, xs ...*TV) *TV {
 	if xs == nil {
 		xs = []*TV{}
@@ -207,7 +207,18 @@ func build(t *TV) (reflect.Value, bool) {
 		for _, kv := range t.V.([][2]any) {
 			kb, _ := hex.DecodeString(kv[0].(string))
 			var k reflect.Value
-			if t.KK == "named" {
+			if ks := kv[0].(string); t.KK == "iface" && strings.HasPrefix(ks, "~") {
+				// keys of an interface-keyed map that are not strings: "~nil", "~int:5", "~bool:1" (the model declines these lines)
+				switch {
+				case ks == "~nil":
+					k = reflect.Zero(anyT)
+				case strings.HasPrefix(ks, "~int:"):
+					i, _ := strconv.Atoi(ks[5:])
+					k = reflect.ValueOf(i)
+				default:
+					k = reflect.ValueOf(ks == "~bool:1")
+				}
+			} else if t.KK == "named" {
 				k = reflect.ValueOf(NString(kb))
 			} else {
 				k = reflect.ValueOf(string(kb))
@@ -463,7 +474,9 @@ func canonV(v reflect.Value) string {
 		var kvs []kv
 		for _, k := range v.MapKeys() {
 			ks := ""
-			if k.Kind() == reflect.Interface {
+			if k.Kind() == reflect.Interface && k.IsNil() {
+				ks = "<nil>"
+			} else if k.Kind() == reflect.Interface {
 				ks = fmt.Sprint(k.Elem().Interface())
 			} else {
 				ks = k.String()
